@@ -6,6 +6,7 @@
 //       S<count>   read/write: the k-th call is performed with its count cut to <count> (>= 1)
 //       G<sig>     raise(sig) before the k-th call, then perform it
 //       J<sig>     raise(sig) and fail the k-th call with EINTR without performing it (read/write/poll)
+//       P          write to a broken pipe: raise(SIGPIPE) (a no-op when SIGPIPE is ignored), then fail with EPIPE
 //       X          _exit(99) before the k-th call            K   kill(self, SIGKILL) before the k-th call
 //       Ms / Md    before the k-th call another "process" replaces the source / target name:
 //                  rename(name, name.moved) and create a new file "foreign\n" under the name
@@ -173,6 +174,7 @@ static long begin(struct verdict *v, const char *what)
 		case 'S': v->shortc = e->arg < 1 ? 1 : e->arg; break;
 		case 'G': raise((int)e->arg); break;
 		case 'J': raise((int)e->arg); v->fail = 1; v->err = EINTR; break;
+		case 'P': raise(SIGPIPE); v->fail = 1; v->err = EPIPE; break;
 		case 'M': replace_name(e->sub == 's' ? mv_src : mv_dst); break;
 		case 'X': case 'K': {
 			char b[160];
